@@ -39,13 +39,16 @@ def is_ignored(file_path: str | Path, ignore_patterns: list[str]) -> bool:
         return False
 
     path_str = str(file_path)
+    # The extension decides the language in any letter case: calc_test.PY is matched like calc_test.py
+    suffix = Path(path_str).suffix
+    spellings = {path_str, path_str[: len(path_str) - len(suffix)] + suffix.lower()}
 
     for pattern in ignore_patterns:
         # Use fnmatch for glob-style patterns
-        if fnmatch.fnmatch(path_str, pattern):
+        if any(fnmatch.fnmatch(spelling, pattern) for spelling in spellings):
             return True
         # Also check if pattern appears as substring (for simple patterns)
-        if pattern in path_str:
+        if any(pattern in spelling for spelling in spellings):
             return True
 
     return False
